@@ -36,6 +36,7 @@ def rules(ctx):
     c057(ctx)
     c058(ctx)
     c059(ctx)
+    c0510(ctx)
 
 
 def c055(ctx):
@@ -265,6 +266,47 @@ def c056(ctx):
         # every other path compares count with the configured number
         cmp_ok = any(s_["k"] == "bin" and s_["op"] == "Le" for s_ in P.origins(f, {"k": "copy", "pl": {"l": 0, "p": []}}))
         ctx.check(R, f, "count-vs-number", cmp_ok, "otherwise retained iff count <= number", "the retention test is no longer count <= number")
+
+
+# ------------------------------------------------------------------------------------------------
+# C05.10 a policy combinator passes everything on to its children
+
+def c0510(ctx):
+    R = "C05.10"
+    ctx.declare(R, "a policy combinator (any / all) forwards every method of the Determiner trait to every child: a method it inherits as a "
+                   "do-nothing default never reaches a stateful child (a version counter inside any(..) / all(..) would count across keys)")
+    T = "sst::gc::Determiner"
+    methods = set()
+    for (tr, name), fns in ctx.prog.trait_impls.items():
+        if tr == T:
+            methods.add(name)
+    for k in ctx.prog.fns:
+        if k.startswith(T + "::") and "{closure" not in k:
+            methods.add(k[len(T) + 2:])
+    combs = []
+    for imp in ctx.prog.impls:
+        if imp.get("trait") != T:
+            continue
+        adt = ctx.prog.adts.get(imp["self"])
+        if adt and any("dyn sst::gc::Determiner" in fld[1] for v in adt["variants"] for fld in v["fields"]):
+            combs.append(imp)
+    ctx.floor(R, "Determiner trait methods", len(methods), 1)
+    ctx.floor(R, "policy combinators", len(combs), 2)
+    for imp in sorted(combs, key=lambda i: i["self"]):
+        have = dict(imp["fns"])
+        for m in sorted(methods):
+            f = ctx.prog.fns.get(have.get(m)) if m in have else None
+            if f is None:
+                ctx.check(R, imp["self"], "forwards:" + m, False, "",
+                          "%s does not define Determiner::%s and inherits the default: its children never see the call" % (imp["self"], m))
+                continue
+            calls = [p_ for p_ in P.call_points(f, r"sst::gc::Determiner::%s$" % re.escape(m)) if P.term_at(f, p_).get("rk") == "virtual"]
+            heads = [h for h in P.call_points(f, r"Iterator>::next$") if P.reach(f, P.after(f, h), [h])]
+            q = None
+            for h in heads:
+                q = q or P.reach(f, P.after(f, h), [h], avoid=set(calls))
+            ctx.check(R, f, "forwards:" + m, bool(calls) and bool(heads) and q is None, "%s::%s calls every child's %s" % (imp["self"].rsplit("::", 1)[-1], m, m),
+                      "%s::%s does not pass the call on to every child" % (imp["self"], m), path=q)
 
 
 # ------------------------------------------------------------------------------------------------
